@@ -38,6 +38,13 @@ open_("C03", "D24", "C03/unsound-note@f.txt:4", ["C03/unsound-blame@f.txt:4"],
 open_("C03", "D36", "C03/unsound-note@src/c.rs:11", ["C03/unsound-note@src/c.rs:12", "C03/unsound-blame@src/c.rs:11", "C03/unsound-blame@src/c.rs:12", "C05/hash-without-prompt"],
       "history (recorded script witnesses/d36_c03_1_230.json): S2 inserts 2 lines into src/c.rs (and other edits); a commit of another file only turns them into INITIAL-only pending claims; `git stash push` followed by `git stash clear` discards the work; a person types 3 lines at the same position; commit => the person's lines src/c.rs:11-12 are committed as S2, and the note lists a session hash without a prompt record",
       "recorded:witnesses/d36_c03_1_230.json", ["stash_discard_with_initial_pending"])
+open_("C03", "D55", "C03/unsound-note@f.txt:1", ["C03/unsound-blame@f.txt:1"],
+      "history: S2's line at the top of f.txt is pending (a commit of another file left it uncommitted, so only INITIAL holds it, by line number); `git restore -- f.txt` discards it; a person, reported by an IDE-style checkpoint, types three lines at the top; commit => the person's first line is committed as S2's. `git restore` (worktree / --staged --worktree / --source forms, `restore .`) is not hooked at all, and `git checkout f.txt` / `git checkout .` / `git checkout HEAD f.txt` without `--` are not recognised as path checkouts, so the stale INITIAL survives; the repair needs a new command hook and pathspec parsing",
+      "c03.restore_discards_pending_lines_then_person_types_there", ["restore_with_initial_pending"])
+open_("C03", "D56", "C05/hash-without-prompt", [],
+      "history: S1's three lines in f.txt are pending (INITIAL) after a commit of `-dash.txt` only, whose edit a person reported by a checkpoint; `git add -A; git reset -q -- -dash.txt`; the person edits `-dash.txt`; commit => the note lists S1's hash for f.txt without a prompt record (for a pathspec whose name starts with a dash the pathspec reset archives HEAD's working log, INITIAL prompts included, and rebuilds it from checkpoints only)",
+      "c03.reset_path_with_dash_name_loses_prompt_record", ["reset_path_dash_name"])
+fixed("C03", "D57", "^fix: pre-commit checkpoint looks at untracked", "S1 creates g.txt (5 lines) which stays untracked; a commit of nothing turns its lines into INITIAL-only pending claims; a person (checkpoint taken) deletes two of them and appends two own lines; another commit that does not include g.txt; then everything is committed => the person's lines 4-5 were committed as S1's (the pre-commit checkpoint skipped untracked files whenever the working log had no agent checkpoint, although INITIAL claimed lines in one)", "c03.person_edits_untracked_file_with_pending_ai_lines_across_a_commit")
 fixed("C03", "D3", "^fix: writing an empty pending set", "after a partial commit left AI lines pending, `git checkout -- f` discarded them but the stale INITIAL survived (write_initial_attributions returned early on an empty set) and lines a person typed at the same positions were committed as AI", "c03.path_checkout_then_human_types_same_lines")
 open_("C05", "D4", "C05/unparsable-note", [],
       "history: a tracked file named `---` gets one AI line and is committed => the note's attestation section contains the path line `---`, which every reader (git-ai's own parser and the spec grammar) takes for the divider: the note is unreadable (metadata is not JSON)",
@@ -119,6 +126,9 @@ fixed("C03", "D31", "^fix: forced checkout/switch discards", "`git switch --disc
 fixed("C02", "D16a", "^fix: rebased commits no longer get notes", "after a plain two-commit rebase whose first commit did not touch f.txt, the note of the first rewritten commit listed the second commit's AI line of f.txt at its pre-rebase line number (a line the commit does not contain / a person's line)", "c02.rebase_first_commit_must_not_list_later_files")
 fixed("C02", "D11", "^fix: reset --soft/--mixed keeps pending", "pending AI lines in f.txt were dropped by `git reset --soft|--mixed HEAD~1` when the un-done commit only touched g.txt (reconstruct_working_log_after_reset rebuilt only files changed in the un-done range and deleted the old working log)", "c02.reset_of_unrelated_commit_keeps_pending")
 fixed("C02", "D25", "^fix: bare 'git stash' takes", "bare `git stash` (implicit push) skipped the pre-stash human checkpoint that `git stash push` runs, so a person's unreported insertion above pending AI lines left stale line numbers in the stash note and an AI line came back human after pop", "c02.bare_stash_after_unreported_human_edit")
+open_("C02", "D58", "C03/unsound-note@a.txt:5", ["C03/unsound-blame@a.txt:5"],
+      "history (recorded script witnesses/d58_c02_77_183.json, reduced by tools/ddmin.py): S1 creates a.txt with 5 lines, commit; S2 replaces lines 1-2, a person (checkpoint taken) replaces line 3 by three own lines, both left unstaged across two commits of nothing; `git reset --soft HEAD~2`; commit => the person's line 5 is committed as S1's (the original random script un-did, with reset --soft HEAD~2, two commits in which a person had deleted and replaced some of S1's lines of the kept commit): the reconstruction after a soft / mixed reset maps the kept commit's line numbers onto the new content wrongly when the un-done or pending work removes lines",
+      "recorded:witnesses/d58_c02_77_183.json", ["reset_over_removed_lines"])
 fixed("C02", "D54", "^fix: CI rebase-merge detection", "a pull request of two commits (the first adds two AI lines at the end of f.txt, the second deletes them again) squash-merged on the server onto a base branch with earlier commits: `git-ai ci local merge` (likewise the GitHub CI run) took the squash for a rebase merge because it walked two commits back from the squash commit into the base branch; the squash commit got the note of the last original commit only, listing lines 8-9 of a 5-line file, and the note of an older base-branch commit was overwritten", "c02.ci_squash_merge_of_two_commits_on_moved_base")
 
 open_("C18", "D49", "C18/alias-tokens-differ@trailing-backslash", [],
